@@ -76,7 +76,7 @@ class C19(Prop):
                  "constants, comparison operators and statement orders (regex over the comment-stripped function bodies, "
                  "bridging lemmas as obligations) + model/implementation correspondence on sequentialised schedules for "
                  "BOTH POSIX back ends (epoll, and the poll back end compiled on Linux) + real multi-thread runs "
-                 "+ ThreadSanitizer (runtime part)")
+                 "+ clang-AST translation of the locked function bodies + ThreadSanitizer (runtime part, incl. the full backend() loop)")
     level_text = ("Lean 4 theorems about executable models of the event loop of both POSIX back ends (doorbell + completion "
                   "ring; epoll/eventfd and poll/pipe are shown to be the same machine), async_queue (ring indices, "
                   "drop-oldest / block-writer / fail; any number of writers asleep on the auto-reset event, clear at any "
@@ -84,7 +84,11 @@ class C19(Prop):
                   "(terminates within five of its steps from every state at which stop is requested; chunk enqueued "
                   "before its completion), the portable timer (stop flag, timed condition wait, join) and the "
                   "heart-beat flag protocol (a tick is never swallowed by the clear and never leaves the backend in a "
-                  "blocking wait), quantified over every scheduler choice; the models are tied to the source by "
+                  "blocking wait), quantified over every scheduler choice; the lock discipline of async_queue and of both "
+                  "completion rings (every access to a shared field inside a lock...unlock bracket, on every path through "
+                  "the function bodies regenerated from the clang AST; checker proved sound; accesses of different threads "
+                  "ordered by the mutex); exact enqueue / dequeue / dropped counters under any interleaving; the eventfd "
+                  "overflow bound as an explicit hypothesis; the models are tied to the source by "
                   "regenerated constants / operators / statement orders and by running the real code and the model on "
                   "the same sequentialised schedules (identical traces); the Lean oracle judges every implementation "
                   "trace, including real multi-thread runs; `judgeEv (events cmds) = []` is proved for all command lists")
@@ -103,20 +107,27 @@ class C19(Prop):
             "queue, qclear = several writers asleep while the consumer clears, worker, timer, console = the real console "
             "worker on a pipe with shutdown at four stages of its life); a case is non-trivial when its trace has >= 2 "
             "lines; distinct = distinct canonical implementation trace")
-    not_covered = ["data races: runtime check only (ThreadSanitizer on the runs made), no proof",
+    not_covered = ["data races: for head/tail/count/counters/slots of async_queue and ring/ring_head/ring_count of both "
+                   "rings the lock discipline is PROVED on every path of the regenerated bodies (hypothesis: the mutex "
+                   "works); every other shared location (worker state, timer flags, heart_beat_flag, event internals) is "
+                   "checked only by ThreadSanitizer on the runs made, incl. the full backend() loop",
                    "kernel scheduling fairness; the IOCP back end and async_worker_win32.c (Windows); BSD/macOS pipe and "
                    "poll() semantics where they differ from Linux (the poll back end runs on Linux pipes here)",
-                   "the full backend() loop is not run under ThreadSanitizer; the heart-beat protocol theorems are about "
-                   "the model HbSys, tied to src/backend.c by the order of three statements (hb_protocol_eq) and the "
-                   "TSan run of the real callback against the real call_heart_beat - there is no trace-level "
-                   "correspondence for it",
-                   "eventfd counter overflow after 2^64-2 un-waited doorbell writes (post would return -1 although the "
-                   "completion is queued and delivered)",
+                   "the heart-beat protocol theorems are about the model HbSys, tied to src/backend.c by the order of "
+                   "three statements (hb_protocol_eq), the `hbowed` run (real callback inside the real call_heart_beat) "
+                   "and the full backend() loop under ThreadSanitizer - its blocking-wait clause has no trace-level "
+                   "correspondence",
+                   "beyond 2^64-2 un-waited doorbell writes (explicit hypothesis eventfdMax; at the bound a post returns "
+                   "-1 although the completion is queued and delivered: post_at_overflow_still_queued)",
+                   "the lock translator reduces expressions to accesses in source order (no aliasing beyond locals "
+                   "initialised from get_slot / &ring[i]; macros as clang expands them); functions outside "
+                   "async_queue.c and the two runtime files that might touch the fields directly are not scanned",
                    "async_runtime_wait: time-out conversion, EINTR, MAX_EVENTS clamp, socket readiness branch; "
                    "async_runtime_add/modify/remove",
                    "error paths of the constructors (calloc / pthread_create / event init failing)",
                    "timer drift correction (next_tick arithmetic); platform_event_reset, timed event wait, mutex_trylock",
-                   "process_io console branch in src/comm.c (needs the initialised driver: C12/C13 harnesses)"]
+                   "process_io console branch in src/comm.c: only observed end to end (`mt backend`: 40 console lines "
+                   "through the real loop, once each, in order), not modelled"]
 
     # ---- translator: ORDER of the state stores relative to the spawn / the user procedure -------------------
     STATE_NAMES = {"ASYNC_WORKER_STOPPED": "workerStopped", "ASYNC_WORKER_RUNNING": "workerRunning",
